@@ -278,7 +278,10 @@ pub fn c06_scenario(rng: &mut Rng, stakes: &[u64], own: u64) -> Vec<Op> {
     let n = stakes.len() as u64;
     let s = rng.range(2, 6);
     let parent = (s - 1, (s - 1) * 10 + 1);
-    let nblocks = rng.range(1, 3);
+    // one scenario in eight: the votes of the others are split between two competing blocks and the OWN vote - a notar
+    // vote for a third block - arrives last: it is the missing condition for both competitors at once
+    let own_last_for_third = rng.chance(1, 8);
+    let nblocks = if own_last_for_third { 3 } else { rng.range(1, 3) };
     let blocks: Vec<(u64, u64)> = (0..nblocks).map(|k| (s, s * 10 + k + 1)).collect();
     // the trigger set: every element is one group of operations; groups are shuffled
     let mut groups: Vec<Vec<Op>> = Vec::new();
@@ -326,7 +329,13 @@ pub fn c06_scenario(rng: &mut Rng, stakes: &[u64], own: u64) -> Vec<Op> {
     // votes of the other validators: each picks notar(some block) / skip / nothing
     let mut others: Vec<u64> = (0..n).filter(|v| *v != own).collect();
     rng.shuffle(&mut others);
-    for v in others {
+    for (pos, v) in others.into_iter().enumerate() {
+        if own_last_for_third {
+            let r = rng.below(8);
+            let op = if r < 6 { Op::Vote { slot: s, kind: VK::Notar, hash: blocks[pos % 2].1, signer: v } } else if r < 7 { Op::Vote { slot: s, kind: VK::Skip, hash: 0, signer: v } } else { continue };
+            groups.push(vec![op]);
+            continue;
+        }
         let r = rng.below(10);
         let op = if r < 5 { Op::Vote { slot: s, kind: VK::Notar, hash: rng.pick(&blocks).1, signer: v } }
                  else if r < 8 { Op::Vote { slot: s, kind: VK::Skip, hash: 0, signer: v } }
@@ -337,12 +346,15 @@ pub fn c06_scenario(rng: &mut Rng, stakes: &[u64], own: u64) -> Vec<Op> {
         groups.push(g);
     }
     // own vote
-    match rng.below(6) {
-        0 => {}
-        1 | 2 => groups.push(vec![Op::Vote { slot: s, kind: VK::Skip, hash: 0, signer: own }]),
-        _ => groups.push(vec![Op::Vote { slot: s, kind: VK::Notar, hash: rng.pick(&blocks).1, signer: own }]),
+    if !own_last_for_third {
+        match rng.below(6) {
+            0 => {}
+            1 | 2 => groups.push(vec![Op::Vote { slot: s, kind: VK::Skip, hash: 0, signer: own }]),
+            _ => groups.push(vec![Op::Vote { slot: s, kind: VK::Notar, hash: rng.pick(&blocks).1, signer: own }]),
+        }
     }
     rng.shuffle(&mut groups);
+    if own_last_for_third { groups.push(vec![Op::Vote { slot: s, kind: VK::Notar, hash: blocks[2].1, signer: own }]); }
     groups.into_iter().flatten().collect()
 }
 
@@ -370,7 +382,7 @@ pub fn gen_c06(seed: u64, tier: Tier) -> CaseSet {
         tally.add(&outs);
         cases.push(txt);
     }
-    stats.rule = "one slot with 1-3 competing blocks: parent certificate (by notar votes, by mixed notar/notar-fallback votes, or received Notar / NotarFallback / FastFinal certificate, or absent; in a quarter of the cases a further certificate of another kind for the same parent; in a fifth the other block of the parent's slot notar-fallback certified too; in a fifth a LATER slot fast-finalized with unknown ancestry, so that the slot under test lies undecided below the finalized slot), block registrations (some missing, some with an uncertified parent), other validators' notar/skip/fallback votes and the own vote, shuffled as groups so that each can arrive last; non-trivial = at least one SafeToNotar/SafeToSkip raised; distinct by full trace".into();
+    stats.rule = "one slot with 1-3 competing blocks: parent certificate (by notar votes, by mixed notar/notar-fallback votes, or received Notar / NotarFallback / FastFinal certificate, or absent; in a quarter of the cases a further certificate of another kind for the same parent; in a fifth the other block of the parent's slot notar-fallback certified too; in a fifth a LATER slot fast-finalized with unknown ancestry, so that the slot under test lies undecided below the finalized slot), block registrations (some missing, some with an uncertified parent), other validators' notar/skip/fallback votes and the own vote, shuffled as groups so that each can arrive last (one scenario in eight: the others split between two competitors, the own notar vote for a third block last); non-trivial = at least one SafeToNotar/SafeToSkip raised; distinct by full trace".into();
     tally.into_stats(&mut stats);
     finish("pool", 6, cases, descr, sigs, stats)
 }
